@@ -43,6 +43,7 @@ let rec kind_of (s : string) : kind =
   | 'T' -> KTuple (nat_of_int (int_of_string (String.sub s 1 (String.length s - 1))))
   | 'R' -> KReal | 'I' -> KInt | 'B' -> KBool | 'S' -> KString | 'V' -> KRealVec | 'K' -> KBlock
   | 'U' -> KSize | 'L' -> KLong | 'J' -> KIntVec | 'W' -> KWordVec
+  | 'Y' -> KTupleVec (nat_of_int (int_of_string (String.sub s 1 (String.length s - 1))))
   | 'N' -> KRealVecN (nat_of_int (int_of_string (String.sub s 1 (String.length s - 1))))
   | _ -> failwith "kind"
 
@@ -83,6 +84,7 @@ let value_str = function
   | VInt z -> z_str z
   | VInts l -> "[" ^ String.concat ";" (List.map z_str l) ^ "]"
   | VWords l -> "[" ^ String.concat ";" (List.map hex l) ^ "]"
+  | VTuples l -> "[" ^ String.concat "|" (List.map (fun t -> String.concat ";" (List.map (fun d -> Printf.sprintf "%h" (float_of_dec d)) t)) l) ^ "]"
   | VBool b -> if b then "1" else "0"
   | VString s -> "s" ^ hex s
   | VReals l -> "[" ^ String.concat ";" (List.map (fun d -> Printf.sprintf "%h" (float_of_dec d)) l) ^ "]"
@@ -137,6 +139,10 @@ let () =
         print_endline (String.concat ";" (List.map (fun o ->
             Printf.sprintf "%d/%d/%s" (if o.ko_found then 1 else 0) (if o.ko_err then 1 else 0)
               (match o.ko_val with KvInit -> Printf.sprintf "%h" 111.0 | KvDefault -> Printf.sprintf "%h" 222.0 | KvUser d -> Printf.sprintf "%h" (float_of_dec d))) outs))
+      | "CW" :: allowed :: w :: _ ->
+        (* line_ok of the model for a line holding one word, with the recorded keyword list of a real block *)
+        let al = List.map unhex (String.split_on_char ',' allowed) in
+        print_endline (if check_keywords al (unhex w) [] = CK_ok then "accept" else "reject")
       | "KS" :: calls :: _ ->
         (* successive key_lookup calls on one parser object: conf:key:savepos|conf:key:savepos|... *)
         let cl = List.map (fun c -> match String.split_on_char ':' c with
